@@ -14,7 +14,7 @@ namespace Thr2
 
 inductive Comb where
   | merge | mergeAll | mergeMaxc | flatMap | zip | combineLatest | withLatestFrom | amb
-  | windowTime | windowToc
+  | windowTime | windowToc | windowCount | bufferTime
 deriving DecidableEq, Repr
 
 /-- notification kind of the triggering event / of a downstream call; `T` = the operator's timer
@@ -34,7 +34,8 @@ structure Row where
   guard : List (Bool × Option Bool) -- `amb` only: (side of the calling handler, `choice` at the call)
 
 def Comb.all : List Comb :=
-  [.merge, .mergeAll, .mergeMaxc, .flatMap, .zip, .combineLatest, .withLatestFrom, .amb, .windowTime, .windowToc]
+  [.merge, .mergeAll, .mergeMaxc, .flatMap, .zip, .combineLatest, .withLatestFrom, .amb, .windowTime, .windowToc,
+   .windowCount, .bufferTime]
 
 /-- held-lock sets of everything that must be serialised on this path -/
 def Row.held (r : Row) : List (List Nat) := r.calls.map (·.2) ++ r.writes.map (·.2)
@@ -62,9 +63,14 @@ def ambOk (rows : List Row) : Bool :=
    | s :: _ => s.any (fun c => sets.all (fun x => x.contains c))) &&
   rows.all (fun r => r.calls.length = r.guard.length ∧ r.guard.all (fun g => g.2 = some g.1))
 
+/-- `window_with_count` (and `buffer_with_count` built on it) has one source and no timer: every live path
+is driven by source 0, so only one thread ever runs its handlers and no lock is needed. -/
+def singleSource (rows : List Row) : Bool := rows.all (fun r => r.src = 0)
+
 def tableOk (t : List Row) : Bool :=
   Comb.all.all fun op =>
     let rows := live t op
-    covers rows && (if op = .amb then ambOk rows else oneLock rows)
+    covers rows &&
+      (if op = .amb then ambOk rows else if op = .windowCount then singleSource rows else oneLock rows)
 
 end Thr2
